@@ -249,6 +249,9 @@ func (fv *FV) evalSpec(e *Expr, env *Env) Val {
 	case "index":
 		b := fv.evalSpec(e.Args[0], env)
 		i := fv.evalSpec(e.Args[1], env)
+		if len(i.T) <= 40 && !strings.Contains(i.T, "!q") {
+			env.st.addIdx(i.T)
+		}
 		switch {
 		case b.S == "Slice":
 			es := "Int"
@@ -566,6 +569,9 @@ func (fv *FV) evalCall(e *Expr, env *Env) Val {
 		return Val{T: fmt.Sprintf("(ite (%s %s %s) %s %s)", o, a.T, b.T, a.T, b.T), S: "Int"}
 	case "dyn":
 		return Val{T: fmt.Sprintf("(ityp %s)", arg(0).T), S: "Int"}
+	case "unbox":
+		// unbox(x): the scalar stored in interface value x
+		return Val{T: fmt.Sprintf("(unbox_any (ival %s))", arg(0).T), S: "Int"}
 	case "payload":
 		return Val{T: fmt.Sprintf("(ival %s)", arg(0).T), S: "Int"}
 	case "lib":
